@@ -8,9 +8,9 @@
     contains no '/'.  ["" <-> [[]]], ["/" <-> [[];[]]], ["a/" <-> [a;[]]],
     ["/a/b" <-> [[];a;b]].  This is a bijection between strings and non-empty
     lists of slash-free segments, so string equality is list equality and
-    string concatenation [a + "/" + b] is list concatenation [a ++ b].  Where
-    the Go code slices a path string by a byte count ([path[len(srcDir):]]) the
-    model renders to bytes, slices, and splits again ([render], [bsplit]).
+    string concatenation [a + "/" + b] is list concatenation [a ++ b]
+    (["/" + s] is [[] :: s]).  [render] gives the bytes of a string (used by
+    byte-level predicates such as strings.HasSuffix in filters).
 
     The file system is a finite map from *resolved* absolute paths (the list of
     segments after the root, no "", ".", "..") to [Dir] or [File content];
@@ -162,17 +162,6 @@ Fixpoint render (p : rpath) : list N :=
   | s :: p' => s ++ slash :: render p'
   end.
 
-Fixpoint bsplit (l : list N) : rpath :=
-  match l with
-  | [] => [[]]
-  | b :: l' =>
-      if N.eqb b slash then [] :: bsplit l'
-      else match bsplit l' with
-           | s :: r => (b :: s) :: r
-           | [] => [[b]]
-           end
-  end.
-
 (** * files.ensureDirName: drop one trailing '/' *)
 Definition ensure_dir_name (p : rpath) : rpath :=
   match p with
@@ -223,24 +212,33 @@ Record entry := mkE { e_name : rpath; e_dirattr : bool; e_data : N }.
 
 Inductive zres := ZOk (es : list entry) | ZErr | ZPanic.
 
-Inductive zsel := SelSkip | SelPanic | SelEntry (e : entry).
+Inductive zsel := SelSkip | SelErr | SelPanic | SelEntry (e : entry).
 
-(* body of the walk callback for one regular file; [src] is srcDir after ensureDirName *)
+(* filepath.Dir: Clean of the part up to and including the last '/' *)
+Definition dir_of (p : rpath) : rpath := clean_str (split_dir p).
+
+(* body of the walk callback for one regular file; [src] is srcDir after
+   ensureDirName.  (As of commit de6fafe in /repo: entry name and sub-folder
+   test through filepath.Rel; the earlier byte slicing is in
+   model/legacy/ZipLegacy.v.) *)
 Definition zip_select (src : rpath) (filt : option (rpath -> bool)) (recursive : bool)
            (f : list seg * N) : zsel :=
   let path := walk_path src (fst f) in
   if match filt with Some t => negb (t path) | None => false end then SelSkip
-  else if negb recursive && negb (path_eqb (ensure_dir_name (split_dir path)) src) then SelSkip
   else
-    let pb := render path in
-    let n := length (render src) in
-    if length pb <? n then SelPanic                            (* path[len(srcDir):] out of range *)
-    else SelEntry (mkE (bsplit (skipn n pb)) false (snd f)).
+    match rel src path with
+    | None => SelErr                                           (* the callback returns the error *)
+    | Some r =>
+        if negb recursive && negb (path_eqb (dir_of r) [s_dot]) then SelSkip
+        else SelEntry (mkE (s_empty :: r) false (snd f))       (* "/" + rel *)
+    end.
 
+(* the walk stops at the first error / panic *)
 Fixpoint zip_collect (l : list zsel) : zres :=
   match l with
   | [] => ZOk []
   | SelSkip :: l' => zip_collect l'
+  | SelErr :: _ => ZErr
   | SelPanic :: _ => ZPanic
   | SelEntry e :: l' =>
       match zip_collect l' with
@@ -274,21 +272,25 @@ Definition resolve (p : rpath) : list seg := c_segs (clean p).
 (* EnsureDirExists on the resolved path [pre ++ rest], [pre] known to be a
    directory: os.Open succeeds when the path exists (directory or file);
    ENOTDIR on a file in the middle is an error; ENOENT makes MkdirAll create
-   the missing directories.  None = error, nothing changed. *)
-Fixpoint ensure_dir_from (fs : fsys) (pre rest : list seg) : option fsys :=
+   the missing directories.  [md]: the path string ends in '/', "." or "..",
+   so the kernel insists on a directory (ENOTDIR on a file).
+   None = error, nothing changed. *)
+Fixpoint ensure_dir_from (md : bool) (fs : fsys) (pre rest : list seg) : option fsys :=
   match rest with
   | [] => Some fs
   | s :: rest' =>
       let p := pre ++ [s] in
       match fs_get fs p with
-      | Some Dir => ensure_dir_from fs p rest'
-      | Some (File _) => match rest' with [] => Some fs | _ => None end
-      | None => ensure_dir_from (fs_set fs p Dir) p rest'
+      | Some Dir => ensure_dir_from md fs p rest'
+      | Some (File _) => match rest' with [] => if md then None else Some fs | _ => None end
+      | None => ensure_dir_from md (fs_set fs p Dir) p rest'
       end
   end.
 
+Definition must_be_dir (p : rpath) : bool := negb (seg_normal (last p s_empty)).
+
 Definition ensure_dir (fs : fsys) (p : rpath) : option fsys :=
-  ensure_dir_from fs [] (resolve p).
+  ensure_dir_from (must_be_dir p) fs [] (resolve p).
 
 (* every path pre++[x1], pre++[x1;x2], ... is a directory *)
 Fixpoint all_dirs (fs : fsys) (pre rest : list seg) : bool :=
